@@ -206,3 +206,114 @@ theorem nughdeLoop_spec (tbl : List Asg) (hT : ∀ a ∈ tbl, NUL ∉ a.name) (l
     | some p => obtain ⟨m, a⟩ := p; rfl
 
 end Nq.Lemmas.Users
+
+namespace Nq.Lemmas.Users
+open Nq Nq.Users Nq.Spec.Users Nq.Gen.Lspawn
+
+/-! tables produced by qmail-newu's parser have NUL-free names -/
+
+theorem newuLine_name (line : Bytes) (a : Asg) (h : newuLine line = some a) : NUL ∉ a.name := by
+  unfold newuLine at h
+  split at h
+  · simp at h
+  · rename_i hc
+    simp only at h
+    split at h
+    · simp at h
+    · split at h
+      · simp at h
+      · split at h
+        · simp at h
+        · simp only [Option.some.injEq] at h
+          subst h
+          apply nul_not_mem_lower
+          intro hm
+          have := List.mem_of_mem_take (List.mem_of_mem_drop hm)
+          exact hc (by simpa using this)
+
+theorem newuLoop_names : ∀ (fuel : Nat) (inp : Bytes) (acc tbl : List Asg),
+    newuLoop fuel inp acc = some tbl → (∀ a ∈ acc, NUL ∉ a.name) → ∀ a ∈ tbl, NUL ∉ a.name := by
+  intro fuel
+  induction fuel with
+  | zero => intro inp acc tbl h; simp [newuLoop] at h
+  | succ fuel ih =>
+    intro inp acc tbl h hacc
+    simp only [newuLoop] at h
+    generalize getln inp [] = g at h
+    obtain ⟨line, m, rest⟩ := g
+    simp only at h
+    split at h
+    · simp only [Option.some.injEq] at h; subst h
+      intro a ha; exact hacc a (by simpa using ha)
+    · split at h
+      · simp at h
+      · split at h
+        · simp at h
+        · rename_i a hline
+          refine ih rest (a :: acc) tbl h ?_
+          intro x hx
+          rcases List.mem_cons.mp hx with rfl | hx
+          · exact newuLine_name line _ hline
+          · exact hacc x hx
+
+theorem newuParse_names (assign : Bytes) (tbl : List Asg) (h : newuParse assign = some tbl) :
+    ∀ a ∈ tbl, NUL ∉ a.name :=
+  newuLoop_names _ _ [] tbl h (by simp)
+
+end Nq.Lemmas.Users
+
+namespace Nq.Lemmas.Users
+open Nq Nq.Users Nq.Spec.Users Nq.Gen.Lspawn
+
+/-! the only error nughde_get's cdb part exits with is QLX_CDB -/
+
+theorem wildLoop_exit (lk : Bytes → Lk) (wild loc : Bytes) : ∀ n c, wildLoop lk wild loc n = .exit c → c = QLX_CDB := by
+  intro n
+  induction n with
+  | zero =>
+    intro c h
+    simp only [wildLoop] at h
+    split at h <;> simp_all
+  | succ n ih =>
+    intro c h
+    simp only [wildLoop] at h
+    split at h
+    · split at h
+      · simp_all
+      · simp at h
+      · exact ih c h
+    · exact ih c h
+
+theorem nughdeLoop_exit (lk : Bytes → Lk) (wild loc : Bytes) (c : Nat) (h : nughdeLoop lk wild loc = .exit c) :
+    c = QLX_CDB := by
+  unfold nughdeLoop at h
+  split at h
+  · simp_all
+  · simp at h
+  · exact wildLoop_exit lk wild loc _ c h
+
+theorem nughdeCdb_exit (f : Option Bytes) (loc : Bytes) (c : Nat) (h : nughdeCdb f loc = .exit c) : c = QLX_CDB := by
+  unfold nughdeCdb at h
+  split at h
+  · simp at h
+  · split at h
+    · exact nughdeLoop_exit _ _ _ c h
+    · simp_all
+
+/-! the wildchars record -/
+
+theorem assocFind_empty_key (tbl : List Asg) (w : Bytes) :
+    assocFind (tbl.map (fun a => (a.key, a.data)) ++ [([], w)]) [] = some w := by
+  induction tbl with
+  | nil => simp [assocFind]
+  | cons a r ih =>
+    simp only [List.map_cons, List.cons_append, assocFind]
+    have : ¬ (Asg.key a = []) := by simp [Asg.key]
+    simp only [this, if_false]
+    exact ih
+
+theorem lkTbl_empty (tbl : List Asg) : lkTbl tbl [] = .found (wildOf tbl []) := by
+  unfold lkTbl pairsOf
+  rw [assocFind_empty_key]
+
+end Nq.Lemmas.Users
